@@ -96,7 +96,8 @@ class Dim:
         k = rng.randrange(self.n)
         if self.names is not None and rng.random() < 0.7:
             return "@" + hx(self.names[k]), self.names[k]
-        for sp in rng.sample(["%d", "+%d", "0%d", "%d"], 4):
+        forms = ["%d", "+%d", "0%d", "%d"] + (["-%d", "-0%d"] if k == 0 else [])   # stoul: "-0" is 0
+        for sp in rng.sample(forms, len(forms)):
             t = sp % k
             if self.names is None or t not in self.names:
                 return "#%d" % k, t
@@ -215,7 +216,8 @@ def gen_rej(rng):
     pomdp = rng.random() < 0.5
     f = File(rng, pomdp).build()
     mode = "pomdp" if pomdp else "mdp"
-    reason = rng.choice(["nosizes", "badcount", "badcount", "unkname", "idxhigh", "colons", "veclen", "badnum", "missing", "fewrows"])
+    reason = rng.choice(["nosizes", "badcount", "badcount", "unkname", "idxhigh", "idxhigh", "idxneg", "idxneg", "idxneg",
+                         "colons", "veclen", "badnum", "missing", "fewrows"])
     items = list(f.items)
     def live(t): return t in ("T", "R") or (t == "O" and pomdp)
     if reason == "nosizes":
@@ -238,18 +240,28 @@ def gen_rej(rng):
         pos = rng.randrange(3)
         parts = [a, s, e]; parts[pos] = bad
         lines = [t + c() + parts[0] + c() + parts[1] + c() + parts[2] + " 0.5"]
-    elif reason == "idxhigh":
-        pos = rng.randrange(3)
-        dim = [A, S, D3][pos]
-        if dim.names is not None and any(x in dim.names for x in [str(dim.n), str(dim.n + 1)]):
-            bad = "99"
-            if bad in dim.names: bad = "98"
+    elif reason in ("idxhigh", "idxneg"):
+        # a numeric index outside [0, size): at / above the bound, or NEGATIVE (std::stoul wraps "-1" to
+        # 2^64-1, which the range check rejects), in every index position of every line form
+        form = rng.choice(["e", "e", "ri", "rn", "m", "rw"])
+        dims = [A, S, S] if form == "rw" else [A, S, D3]
+        npos = {"e": 3, "ri": 2, "rn": 2, "m": 1, "rw": 3}[form]
+        pos = rng.randrange(npos)
+        dim = dims[pos]
+        if reason == "idxhigh":
+            cands = [str(dim.n), str(dim.n), str(dim.n + 1), "+%d" % dim.n, "0%d" % dim.n, "99", "1000000",
+                     "18446744073709551615", "4294967296", "2147483648"]
         else:
-            bad = rng.choice([str(dim.n), str(dim.n + 1), str(dim.n), "18446744073709551615", "-1", "1000000"])
-        parts = [a, s, e]; parts[pos] = bad
-        form = rng.choice(["e", "r"]) if pos < 2 else "e"
-        if form == "e": lines = [t + c() + parts[0] + c() + parts[1] + c() + parts[2] + " 0.5"]
-        else: lines = [t + c() + parts[0] + c() + parts[1] + " " + good(D3.n)]
+            cands = ["-1", "-1", "-1", "-2", "-3", "-7", "-01", "-1000000", "-2147483648", "-2147483649", "-4294967295",
+                     "-4294967296", "-9223372036854775808", "-99999999999999999999"]
+        cands = [x for x in cands if dim.names is None or x not in dim.names]
+        bad = rng.choice(cands)
+        parts = [a, s, (S.idx(rng)[1] if form == "rw" else e)]; parts[pos] = bad
+        if form == "e": lines = [head(rng, t) + c() + parts[0] + c() + parts[1] + c() + parts[2] + gap(rng) + "0.5"]
+        elif form == "ri": lines = [head(rng, t) + c() + parts[0] + c() + parts[1] + gap(rng) + good(D3.n)]
+        elif form == "rn": lines = [head(rng, t) + c() + parts[0] + c() + parts[1], good(D3.n)]
+        elif form == "m": lines = [head(rng, t) + c() + parts[0]] + [good(D3.n) for _ in range(S.n)]
+        else: lines = [head(rng, "R") + c() + parts[0] + c() + parts[1] + c() + parts[2] + c() + "*" + gap(rng) + "1"]
     elif reason == "colons":
         k = rng.choice(["none", "many", "reward3", "reward5"])
         if k == "none": lines = [t + " " + a + " " + s + " " + e + " 0.5"]
@@ -371,7 +383,8 @@ BAD_ROWS = {1: [["0.5"], ["2"], ["-1"], ["nan"], ["inf"], ["0"], ["1.001"]],
 def spell(dim, k, rng):
     if dim.names is not None and (rng.random() < 0.7 or str(k) in dim.names):
         return dim.names[k]
-    for sp in rng.sample(["%d", "+%d", "0%d"], 3):
+    forms = ["%d", "+%d", "0%d"] + (["-%d"] if k == 0 else [])
+    for sp in rng.sample(forms, len(forms)):
         t = sp % k
         if dim.names is None or t not in dim.names: return t
     return dim.names[k]
